@@ -2,7 +2,7 @@
    accounting.  Statements only; proofs live in C13/Proofs*.v.  Model: C13/Model.v
    (transcription of psutil/_pslinux.py and psutil/__init__.py), specification:
    C13/Spec.v (kernel records, printers k_statm / k_smaps / k_rollup, demanded answers). *)
-From PV Require Import C13.Spec C13.Lib C13.ProofsMaps C13.ProofsSums C13.ProofsRollup C13.ProofsGroup C13.ProofsHist C13.Proofs Gen.C13_Tables.
+From PV Require Import C13.Spec C13.Lib C13.ProofsMaps C13.ProofsSums C13.ProofsRollup C13.ProofsGroup C13.ProofsHist C13.Proofs C13.Handles C13.ProofsHandles Gen.C13_Tables.
 
 (* memory_info(): the seven page counts of statm (size resident shared text lib data dt, alias
    vms rss shared trs lrs drs dt) times the page size, as pmem(rss, vms, shared, text, lib,
@@ -289,3 +289,49 @@ Theorem C13_layouts_agree :
   /\ map_keys = map (fun f => fig_name f ++ [58]) row_figs.
 Proof. exact layouts_agree. Qed.
 Print Assumptions C13_layouts_agree.
+
+(* Several handles of one process over time (wave 8).  History = any sequence of: a oneshot() block
+   of a handle is entered / left (nested entries are no-ops), copy.copy(handle) (new front object
+   without the block's dict, SAME platform object), copy.deepcopy(handle) (TypeError, nothing
+   created), a fresh Process(pid), a change of the kernel's records, an accessor call on a handle
+   (memory_info memoized by the front object, the smaps content memoized by the platform object).
+   For every history from one fresh handle, for whatever kernel reader / accessor functions: a call on
+   ANY handle made while no block is open on any handle returns the accessor computed from the
+   kernel state at call time -- no copy, however and wherever taken, keeps anything of a dead block. *)
+Theorem C13_handles_outside_blocks : forall (K F V : Type) (read_file : K -> F) (info : K -> V)
+    (ans : nat -> K -> F -> V) (uses : nat -> K -> bool) (ops : list (cop K)) (k0 : K) (h : nat) (q : hquery),
+  let s := hexec K F V read_file info ans uses (hinit K F V k0) ops in
+  (forall g, dp V (hdl K F V s g) = 0%nat) ->
+  fst (hcall K F V read_file info ans uses s h q)
+  = match q with QInfo => info (ker K F V s) | QAcc a => ans a (ker K F V s) (read_file (ker K F V s)) end.
+Proof. exact handles_outside_blocks. Qed.
+Print Assumptions C13_handles_outside_blocks.
+
+(* the same along a whole history: each answer given while no block is open (hspec = Some) is the
+   accessor over the kernel state of that moment *)
+Theorem C13_handles_history : forall (K F V : Type) (read_file : K -> F) (info : K -> V)
+    (ans : nat -> K -> F -> V) (uses : nat -> K -> bool) (ops : list (cop K)) (k0 : K),
+  Forall2 (fun v o => match o with Some w => v = w | None => True end)
+          (hrun K F V read_file info ans uses (hinit K F V k0) ops)
+          (hspec K F V read_file info ans uses (hinit K F V k0) ops).
+Proof. intros. apply handles_history. apply hinv_init. Qed.
+Print Assumptions C13_handles_history.
+
+(* instance: memory_info / memory_full_info (listing as the source) / memory_maps(grouped=False) /
+   memory_maps(grouped=True) over kernel-formatted statm and smaps: outside every block each handle
+   reports the demanded figures of the CURRENT mapping list and page counts *)
+Theorem C13_handles_memory : forall pagesize ops k0 h q,
+  let s := hexec kmem bytes mans m_read (m_info pagesize) (m_ans pagesize) m_uses (hinit kmem bytes mans k0) ops in
+  (forall g, dp mans (hdl kmem bytes mans s g) = 0%nat) ->
+  wf_statm (km_statm (ker kmem bytes mans s)) && forallb (wf_kernel (km_probe (ker kmem bytes mans s))) (km_ms (ker kmem bytes mans s))
+    && uniform_figs (km_ms (ker kmem bytes mans s))
+    && (negb (km_has_rollup (ker kmem bytes mans s)) || match km_rollup (ker kmem bytes mans s) with FENOENT | FESRCH => true | _ => false end) = true ->
+  fst (hcall kmem bytes mans m_read (m_info pagesize) (m_ans pagesize) m_uses s h q)
+  = match q with
+    | QInfo => AInfo (Val (spec_meminfo pagesize (km_statm (ker kmem bytes mans s))))
+    | QAcc O => AInfo (Val (spec_full pagesize (km_statm (ker kmem bytes mans s)) (km_ms (ker kmem bytes mans s))))
+    | QAcc (S O) => ARows (Val (map spec_row (km_ms (ker kmem bytes mans s))))
+    | QAcc _ => AGrouped (Val (spec_grouped (map spec_row (km_ms (ker kmem bytes mans s)))))
+    end.
+Proof. exact handles_memory. Qed.
+Print Assumptions C13_handles_memory.
